@@ -1,0 +1,16 @@
+//go:build !verif
+
+package swap
+
+import "time"
+
+// Verification hooks (see verif_on.go). With the verif build tag off they are
+// identities and get inlined away.
+
+func verifSkipBackoff() bool { return false }
+
+func verifPayTiming(retryTime, interval time.Duration) (time.Duration, time.Duration) {
+	return retryTime, interval
+}
+
+func verifRetryDur(d time.Duration) time.Duration { return d }
